@@ -110,7 +110,7 @@ def generate(rng, tier):
         shapes=("random", "tree", "chain", "star", "clique"),
         arity3_p=0.0 if binary_only else 0.2, unary_p=0.0 if binary_only else 0.2,
         varcost_p=rng.choice([0.0, 0.5]),
-        cost_classes=("small", "signed", "float"), initial_p=0.3, str_domain_p=0.3, max_space=400,
+        cost_classes=("small", "signed", "float", "inf"), initial_p=0.3, str_domain_p=0.3, max_space=400,
         objective="min" if algo == "dba" else None)
     p = {}
     if algo in ("mgm", "mgm2", "dsa"):
